@@ -38,10 +38,16 @@ where
     self.fn_next.call_if_available(x);
   }
   pub fn error(&self, x: RxError) {
-    self.fn_error.call_and_clear_if_available(x);
+    if self.fn_error.call_and_clear_if_available(x).is_some() {
+      self.fn_next.clear();
+      self.fn_complete.clear();
+    }
   }
   pub fn complete(&self) {
-    self.fn_complete.call_and_clear_if_available(());
+    if self.fn_complete.call_and_clear_if_available(()).is_some() {
+      self.fn_next.clear();
+      self.fn_error.clear();
+    }
   }
   pub fn unsubscribe(&self) {
     self.fn_next.clear();
